@@ -208,9 +208,9 @@ decreasing_by all_goals (simp_wf; first | (apply Prod.Lex.left; omega) | (apply 
 end
 
 /-- **the document's call sequence is well nested** -/
-theorem docOps_wellNested (o : POpts) (S : LSchema) (t : List DNode) (ops : List Op) (h : docOps o S t = some ops) :
+theorem docOpsW_wellNested (o : POpts) (S : LSchema) (t : List DNode) (ops : List Op) (h : docOpsW o S t = some ops) :
     WellNested ops := by
-  obtain ⟨x1, y1, hx1, hy1, rfl⟩ := cat_eq_some h
+  obtain ⟨x1, y1, hx1, hy1, rfl⟩ := cat_eq_some (by simpa only [docOpsW, docAround] using h)
   obtain ⟨x2, y2, hx2, hy2, rfl⟩ := cat_eq_some hy1
   obtain ⟨x3, y3, hx3, hy3, rfl⟩ := cat_eq_some hy2
   obtain ⟨x4, y4, hx4, hy4, rfl⟩ := cat_eq_some hy3
